@@ -404,7 +404,21 @@ static void run_api(void)
         }
     }
     for (int k = 1; k <= N; k++) {
-        free(co[k].stack);
+        if (m_status[k] == ST_FINISHED && vx_violations_this_exec() == 0) {
+            /* giving the stack back leaves the record of the finished coroutine as it is: "the exit value is still there" */
+            cmi_coroutine_terminate(&co[k]);
+            vx_transition();
+            if (cmi_coroutine_status(&co[k]) != CMI_COROUTINE_FINISHED || cmi_coroutine_exit_value(&co[k]) != m_exit[k]) {
+                FAIL("exit-value-after-terminate", "coroutine %d after cmi_coroutine_terminate: status %d exit value %p, expected "
+                     "FINISHED with %p", k, (int)cmi_coroutine_status(&co[k]), cmi_coroutine_exit_value(&co[k]), m_exit[k]);
+            }
+            if (co[k].stack != NULL) {
+                free(co[k].stack);
+            }
+        }
+        else {
+            free(co[k].stack);
+        }
         co[k].stack = NULL;
     }
     coroutine_current = coroutine_main;
